@@ -23,7 +23,8 @@ EXPLANATION = (
     '_dirs_to_make results, the old cache\'s created_dirs and backup '
     'parents. Decides which paths the library can delete, move or overwrite '
     'on any path of its code; that the run-time contents of the recorded '
-    'sets are right is not decided.')
+    'sets are right is not decided.'
+    ' R3.5: overwritten foreign files are moved aside (R2.4) into distinct backup slots (R2.6b) and restored last by a rollback that cannot be cut short (R2.3, R2.7).')
 
 
 def _tag(ctx, o):
